@@ -15,7 +15,7 @@ use sierradb_cluster::confirmation::{AtomicWatermark, PartitionConfirmationState
 use sierradb_cluster::write::ordered_queue::{OrderedQueue, OrderedValue};
 use stateright::{Model, Property};
 
-pub const MAXN: usize = 3;
+pub const MAXN: usize = 5;
 
 #[derive(Clone, Debug, Hash, PartialEq, Eq, PartialOrd, Ord, serde::Serialize, serde::Deserialize)]
 pub enum Msg {
@@ -139,9 +139,27 @@ pub struct Cfg {
     pub buffer_limit: usize,
     /// nodes at which clients may submit (empty = every node)
     pub submit_at: Vec<u8>,
-    /// measured on the real replicator at start-up (conform::probe): does a catch-up response append a commit
-    /// wherever the replica's log ends (true), or only at the sequence the commit has on the coordinator?
-    pub catchup_appends_anywhere: bool,
+    /// per transaction, the only node at which a client may submit it (empty = `submit_at` applies)
+    pub submit_plan: Vec<u8>,
+    /// if set, the only membership-view change explored is `node` losing / regaining sight of `peer`
+    pub view_change_only: Option<(u8, u8)>,
+    /// "eager" nodes: every message addressed to one of them, and every reply sent by one of them, is delivered at
+    /// once (in a fixed order), inside the transition that produced it.  A restriction of the schedules explored
+    /// (these nodes never lag), used to afford five replicas; they are not projected for the conformance replay.
+    pub eager: Vec<u8>,
+    /// measured on the real replicator at start-up (conform::probe_catchup_mode): where a catch-up response
+    /// appends a commit
+    pub catchup_mode: CatchupMode,
+}
+
+#[derive(Clone, Copy, Debug, PartialEq, Eq, serde::Serialize)]
+pub enum CatchupMode {
+    /// only at the sequence the commit has on the coordinator
+    CoordinatorSequence,
+    /// at the replicator's own next expected sequence (whatever the commit's sequence on the coordinator is)
+    ReplicatorNext,
+    /// wherever the replica's log ends
+    Anywhere,
 }
 
 impl Cfg {
@@ -345,7 +363,11 @@ impl Model for Proto {
         // client submissions: in transaction order (tx k+1 only after tx k was submitted) at any live node
         if let Some(tx) = s.client.iter().position(|c| *c == Client::NotSubmitted) {
             for at in 0..self.0.n as u8 {
-                if s.nodes[at as usize].up && (self.0.submit_at.is_empty() || self.0.submit_at.contains(&at)) {
+                let allowed = match self.0.submit_plan.get(tx) {
+                    Some(only) => *only == at,
+                    None => self.0.submit_at.is_empty() || self.0.submit_at.contains(&at),
+                };
+                if s.nodes[at as usize].up && allowed {
                     out.push(Act::Submit { tx: tx as u8, at });
                 }
             }
@@ -379,6 +401,9 @@ impl Model for Proto {
                 }
                 if s.used.views < m.views {
                     for p in 0..self.0.n as u8 {
+                        if matches!(self.0.view_change_only, Some(only) if only != (i, p)) {
+                            continue;
+                        }
                         if p != i {
                             if node.view[p as usize].is_some() {
                                 out.push(Act::Suspect { node: i, peer: p });
@@ -403,7 +428,34 @@ impl Model for Proto {
         }
     }
 
+    fn properties(&self) -> Vec<Property<Self>> {
+        vec![
+            Property::always("C10 at most one quorum-confirmed transaction per sequence", |m, s| c10_violation(m, s).is_none()),
+            Property::always("C10b confirmed prefixes agree", |_, s: &S| prefix_violation(s).is_none()),
+            Property::always("C11 acknowledged writes are stored on a quorum", |m, s| c11_violation(m, s).is_none()),
+            Property::sometimes("some write acknowledged", |_, s: &S| s.client.iter().any(|c| matches!(c, Client::Ok { .. }))),
+            Property::sometimes("some write failed", |_, s: &S| s.client.iter().any(|c| matches!(c, Client::Failed))),
+            Property::sometimes("some write buffered out of order", |_, s: &S| s.nodes.iter().any(|n| !n.q_map.is_empty())),
+            Property::sometimes("some catch-up applied", |_, s: &S| s.used.catchups > 0 && s.nodes.iter().any(|n| n.log.iter().any(|e| e.count >= 2) && n.coord.is_empty())),
+        ]
+    }
+
     fn next_state(&self, s: &S, a: Act) -> Option<S> {
+        let mut s = self.step(s, a)?;
+        if !self.0.eager.is_empty() {
+            loop {
+                let eager = &self.0.eager;
+                let Some(m) = s.net.iter().find(|m| eager.contains(&m.to()) || matches!(m, Msg::Reply { from, .. } if eager.contains(from))).cloned() else { break };
+                s = self.step(&s, Act::Deliver(m))?;
+            }
+        }
+        Some(s)
+    }
+}
+
+impl Proto {
+    /// One transition (without the eager deliveries).
+    fn step(&self, s: &S, a: Act) -> Option<S> {
         let mut s = s.clone();
         let q = self.0.q();
         let rf = self.0.n as u8;
@@ -619,7 +671,11 @@ impl Model for Proto {
                             let node = &mut s.nodes[to as usize];
                             // appended with the coordinator's count - at the sequence the commit has on the coordinator, or
                             // wherever the log ends, whichever the real replicator was measured to do
-                            let expected = if self.0.catchup_appends_anywhere { None } else { Some(first) };
+                            let expected = match self.0.catchup_mode {
+                                CatchupMode::CoordinatorSequence => Some(first),
+                                CatchupMode::ReplicatorNext => Some(node.q_next),
+                                CatchupMode::Anywhere => None,
+                            };
                             let r = self.replica_append(node, tx, expected, count);
                             node.drain_skipped(&mut s.net, to);
                             if r.is_err() {
@@ -651,17 +707,6 @@ impl Model for Proto {
         Some(s)
     }
 
-    fn properties(&self) -> Vec<Property<Self>> {
-        vec![
-            Property::always("C10 at most one quorum-confirmed transaction per sequence", |m, s| c10_violation(m, s).is_none()),
-            Property::always("C10b confirmed prefixes agree", |_, s: &S| prefix_violation(s).is_none()),
-            Property::always("C11 acknowledged writes are stored on a quorum", |m, s| c11_violation(m, s).is_none()),
-            Property::sometimes("some write acknowledged", |_, s: &S| s.client.iter().any(|c| matches!(c, Client::Ok { .. }))),
-            Property::sometimes("some write failed", |_, s: &S| s.client.iter().any(|c| matches!(c, Client::Failed))),
-            Property::sometimes("some write buffered out of order", |_, s: &S| s.nodes.iter().any(|n| !n.q_map.is_empty())),
-            Property::sometimes("some catch-up applied", |_, s: &S| s.used.catchups > 0 && s.nodes.iter().any(|n| n.log.iter().any(|e| e.count >= 2) && n.coord.is_empty())),
-        ]
-    }
 }
 
 impl Proto {
